@@ -41,6 +41,9 @@ def run_api(job):
         if api == "cd-incremental":
             # the Control object is used in one computation, then extended, then used again
             return eng.run_case({"case": case, "variant": {"start": start, "dt": DT, "incremental": True}, "seed": seed})
+        if api == "cd-final":
+            # record_all=False: the single reported state has seen every control of the run
+            return eng.run_case({"case": case, "variant": {"start": start, "dt": DT, "final_only": True}, "seed": seed})
         if api == "cd-reused":
             # the same Control object served a computation with another start time before (a continued run)
             return eng.run_case({"case": case, "variant": {"start": start, "dt": DT, "reused": 1 + (len(case["ctl"]) % 2)},
@@ -197,6 +200,8 @@ def run(ctx):
                 apis.append("cd-incremental")
             if case["ctl"] and idx % 4 == 1:
                 apis.append("cd-reused")
+            if case["ctl"] and idx % 4 == 3 and not trig:
+                apis.append("cd-final")
             if idx % 3 == 0:
                 apis.append("cdf")
             if idx % 3 == 1:
